@@ -274,6 +274,9 @@ def main():
             # statements sliced from the current AST no longer stand on their own
             rec["verdict"] = "NOT-ENCODED"
             rec["detail"] = "slice broken: %s in %s: %s" % (type(e).__name__, tb[-1].filename, str(e)[:200])
+        elif (isinstance(e, AssertionError) and str(e).startswith("anchor missing")) or type(e).__name__ in ("AnchorMissing", "RxUnsupported"):
+            rec["verdict"] = "NOT-ENCODED"
+            rec["detail"] = str(e)[:400]
         else:
             rec["verdict"] = "ERROR"
             rec["detail"] = "".join(traceback.format_exception(type(e), e, e.__traceback__))[-3000:]
